@@ -538,7 +538,11 @@ func cmdCheck(args []string) int {
 					}
 				}
 			}
-			if ok && !o.AssumeFailed {
+			// The native run stops at the first failed assumption, so a label it
+			// recorded failed before that point; inputs drawn after the violation
+			// are not part of the solver's model (they read as 0 natively and may
+			// fall outside a Choose range), which cannot retract the failure.
+			if ok {
 				confirmed = append(confirmed, c)
 			} else {
 				mismatches = append(mismatches, fmt.Sprintf("%s label=%s: solver model does not reproduce natively (failed=%v assume_failed=%v panic=%q)",
@@ -728,6 +732,13 @@ func nativeReplay(spec *Spec, g *GroupSpec, fm map[string]string, scratch string
 		data, err := os.ReadFile(src)
 		if err != nil {
 			return nil, err
+		}
+		// a harness file under a build constraint belongs only to groups built with that tag
+		if strings.HasPrefix(string(data), "//go:build ") {
+			tag := strings.TrimSpace(strings.TrimPrefix(strings.SplitN(string(data), "\n", 2)[0], "//go:build "))
+			if !strings.Contains(","+g.Tags+",", ","+tag+",") {
+				continue
+			}
 		}
 		for _, line := range strings.Split(string(data), "\n") {
 			if strings.HasPrefix(line, "package ") && pkgName == "" {
